@@ -32,6 +32,7 @@ def register(reg):
 
     register_lexer(reg)
     register_dynamic(reg)
+    register_recovery(reg)
 
 
 TXT = 'lex_state.text.text'
@@ -150,6 +151,26 @@ def _newtoken_region(k):
         hits.sort(key=lambda s: (s.lineno, s.col_offset))
         return [hits[k]] if k < len(hits) else None
     return sel
+
+
+def _skip_region(fn):
+    import ast as _ast
+    for s in _ast.walk(fn):
+        if isinstance(s, _ast.If) and _ast.unparse(s.test) == 'p == s.line_ctr.char_pos':
+            return [s]
+    return None
+
+
+def register_recovery(reg):
+    """on_error recovery of the LALR front end: skipping the unmatched character keeps the line counter exact (str and bytes)"""
+    reg.contract('lark.parsers.lalr_parser:LALR_Parser.parse#skip', serves=['C06', 'C15'], region=_skip_region,
+                 params={'s': 'LexerState', 'p': 'int'}, modifies=['s.line_ctr'],
+                 requires=textmodel.INV('s.line_ctr', 's.text.text') + ['0 <= p', 'p < len(s.text.text)'],      # p: offset of the unmatched character
+                 ghost={'ensures_fall': textmodel.INV('s.line_ctr', 's.text.text') +
+                        ['implies(old(s.line_ctr.char_pos) == p, s.line_ctr.char_pos == p + 1)',
+                         'implies(old(s.line_ctr.char_pos) != p, s.line_ctr.char_pos == old(s.line_ctr.char_pos))'],
+                        'args:s.line_ctr.feed#0': {'text': 's.text.text'}},
+                 replay=lambda model: native_file('bounded/c15_agree.py'))
 
 
 def register_dynamic(reg):
